@@ -19,7 +19,7 @@ for pid in props:
             "engine": "vx+verus",
             "level_claimed": {"category": "proof", "text": c["text"], "design_ref": c.get("design_ref", "DESIGN.md section 3, " + pid)},
             "level_note": c["note"],
-            "technique": c.get("technique", "contract-based deductive verification: Verus pre/postconditions and loop invariants on functions extracted mechanically from /repo/src on every run"),
+            "technique": c.get("technique", "contract-based deductive verification: Verus pre/postconditions and loop invariants on functions extracted mechanically from /repo/src on every run (a bounded schedule explorer on the real crate stands in, labelled bounded, only when changed code is outside the extraction rules)"),
         })
     else:
         na.append({"property_id": pid, "reason": m.NOT_CLAIMED[pid]})
